@@ -54,12 +54,35 @@ def fltToJson : Flt → Json
   | .inf => .str (cp% "inf")
   | .ninf => .str (cp% "-inf")
 
-/-- an element of `x.flatten("C").tolist()` as `json.dumps` sees it (numeric element types only) -/
+/-- `_convert_to_json_na`: `None` ↦ `null`, anything else through the type's converter -/
+def naOr (x : Value) (conv : Value → Option Json) : Option Json :=
+  match x with
+  | .na => some .null
+  | _ => conv x
+
+/-- `{'key': key_type._convert_to_json(k), 'value': value_type._convert_to_json(v)}` — NOT the `_na` variants -/
+def dictEntryToJson (convK convV : Value → Option Json) (p : Value × Value) : Option Json :=
+  match convK p.1, convV p.2 with
+  | some jk, some jv => some (.obj [(cp% "key", jk), (cp% "value", jv)])
+  | _, _ => none
+
+mutual
+/-- an element of `x.flatten("C").tolist()` as `json.dumps` sees it: the elements are NOT converted by the element type, so
+only what `json.dumps` accepts by itself gets through (numbers, `bool`, `str`, `tuple`s of those); `Call`, `Locus`,
+`Interval`, `Struct` and the frozen containers raise `TypeError: Object of type … is not JSON serializable` -/
 def rawToJson : Value → Option Json
   | .int i => some (.num i)
   | .bool b => some (.bool b)
   | .flt f => some (.flt f)
+  | .str s => some (.str s)
+  | .tup xs => (rawToJsonList xs).map .arr
   | _ => none
+def rawToJsonList : List Value → Option (List Json)
+  | [] => some []
+  | x :: xs => match (match x with | .na => some Json.null | _ => rawToJson x), rawToJsonList xs with
+    | some j, some js => some (j :: js)
+    | _, _ => none
+end
 
 mutual
 /-- `t._convert_to_json(x)` (`x` may be `None` only when called from `tdict`) -/
@@ -72,28 +95,24 @@ def toJson : HType → Value → Option Json
   | .call, .call alleles phased => (callStr alleles phased).map .str
   | .locus _, .locus contig pos => some (.obj [(cp% "contig", .str contig), (cp% "position", .num pos)])
   | .interval t, .interval s e is ie =>
-    match (match s with | .na => some Json.null | _ => toJson t s), (match e with | .na => some Json.null | _ => toJson t e) with
+    match naOr s (toJson t), naOr e (toJson t) with
     | some js, some je =>
       some (.obj [(cp% "start", js), (cp% "end", je), (cp% "includeStart", .bool is), (cp% "includeEnd", .bool ie)])
     | _, _ => none
   | .array t, .arr xs | .set t, .set xs =>
-    (mapOpt (fun x => match x with | .na => some Json.null | _ => toJson t x) xs).map .arr
+    (mapOpt (fun x => naOr x (toJson t)) xs).map .arr
   | .dict k v, .dict es =>
-    (mapOpt (fun (p : Value × Value) => match toJson k p.1, toJson v p.2 with
-      | some jk, some jv => some (Json.obj [(cp% "key", jk), (cp% "value", jv)])
-      | _, _ => none) es).map .arr
+    (mapOpt (dictEntryToJson (toJson k) (toJson v)) es).map .arr
   | .struct fs, .struct xs => (toJsonFields fs xs).map .obj
   | .tuple ts, .tup xs => (toJsonTuple ts xs).map .arr
-  | .ndarray t _, .nd shape data =>
-    if isNumeric t then
-      (mapOpt rawToJson data).map fun d => .obj [(cp% "shape", .arr (shape.map fun (n : Nat) => Json.num (Int.ofNat n))), (cp% "data", .arr d)]
-    else none                                        -- `json.dumps` cannot serialise the elements / `from_json` refuses
+  | .ndarray _ _, .nd shape data _ =>
+    (mapOpt rawToJson data).map fun d => .obj [(cp% "shape", .arr (shape.map fun (n : Nat) => Json.num (Int.ofNat n))), (cp% "data", .arr d)]
   | _, _ => none
 /-- `{f: t._convert_to_json_na(x[f]) for f, t in self.items()}` -/
 def toJsonFields : List (Str × HType) → List Value → Option (List (Str × Json))
   | [], [] => some []
   | (n, t) :: fs, x :: xs =>
-    match (match x with | .na => some Json.null | _ => toJson t x), toJsonFields fs xs with
+    match naOr x (toJson t), toJsonFields fs xs with
     | some j, some js => some ((n, j) :: js)
     | _, _ => none
   | _, _ => none
@@ -101,17 +120,14 @@ def toJsonFields : List (Str × HType) → List Value → Option (List (Str × J
 def toJsonTuple : List HType → List Value → Option (List Json)
   | [], [] => some []
   | t :: ts, x :: xs =>
-    match (match x with | .na => some Json.null | _ => toJson t x), toJsonTuple ts xs with
+    match naOr x (toJson t), toJsonTuple ts xs with
     | some j, some js => some (j :: js)
     | _, _ => none
   | _, _ => none
 end
 
 /-- `t._convert_to_json_na(x)` -/
-def toJsonNa (t : HType) (v : Value) : Option Json :=
-  match v with
-  | .na => some .null
-  | _ => toJson t v
+def toJsonNa (t : HType) (v : Value) : Option Json := naOr v (toJson t)
 
 /-! ## from JSON -/
 
@@ -176,6 +192,22 @@ def rawOfJson (t : HType) (j : Json) : Option Value :=
   | .float32, .flt f | .float64, .flt f => some (.flt f)
   | _, _ => none
 
+/-- `_convert_from_json_na`: `null` ↦ `None`, anything else through the type's converter -/
+def nullOr (j : Json) (conv : Json → Option Value) : Option Value :=
+  match j with
+  | .null => some .na
+  | _ => conv j
+
+/-- `key_type._convert_from_json_na(elt['key'])`, `value_type._convert_from_json_na(elt['value'])` -/
+def dictEntryOfJson (convK convV : Json → Option Value) (j : Json) : Option (Value × Value) :=
+  match j with
+  | .obj kvs => match lookup (cp% "key") kvs, lookup (cp% "value") kvs with
+    | some jk, some jv => match nullOr jk convK, nullOr jv convV with
+      | some a, some b => some (a, b)
+      | _, _ => none
+    | _, _ => none                                         -- KeyError
+  | _ => none
+
 def natsOfJson : List Json → Option (List Nat)
   | [] => some []
   | .num i :: r => if 0 ≤ i then (natsOfJson r).map (i.toNat :: ·) else none
@@ -194,22 +226,15 @@ def fromJson : HType → Json → Option Value
   | .interval t, .obj kvs =>
     match lookup (cp% "start") kvs, lookup (cp% "end") kvs, lookup (cp% "includeStart") kvs, lookup (cp% "includeEnd") kvs with
     | some js, some je, some (.bool is), some (.bool ie) =>
-      match (match js with | .null => some Value.na | _ => fromJson t js), (match je with | .null => some Value.na | _ => fromJson t je) with
+      match nullOr js (fromJson t), nullOr je (fromJson t) with
       | some s, some e => some (.interval s e is ie)
       | _, _ => none
     | _, _, _, _ => none
-  | .array t, .arr js => (mapOpt (fun j => match j with | .null => some Value.na | _ => fromJson t j) js).map .arr
-  | .stream t, .arr js => (mapOpt (fun j => match j with | .null => some Value.na | _ => fromJson t j) js).map .arr
-  | .set t, .arr js => (mapOpt (fun j => match j with | .null => some Value.na | _ => fromJson t j) js).map .set
+  | .array t, .arr js => (mapOpt (fun j => nullOr j (fromJson t)) js).map .arr
+  | .stream t, .arr js => (mapOpt (fun j => nullOr j (fromJson t)) js).map .arr
+  | .set t, .arr js => (mapOpt (fun j => nullOr j (fromJson t)) js).map .set
   | .dict k v, .arr js =>
-    (mapOpt (fun j => match j with
-      | .obj kvs => match lookup (cp% "key") kvs, lookup (cp% "value") kvs with
-        | some jk, some jv =>
-          match (match jk with | .null => some Value.na | _ => fromJson k jk), (match jv with | .null => some Value.na | _ => fromJson v jv) with
-          | some a, some b => some (a, b)
-          | _, _ => none
-        | _, _ => none
-      | _ => none) js).map .dict
+    (mapOpt (dictEntryOfJson (fromJson k) (fromJson v)) js).map .dict
   | .struct fs, .obj kvs => (fromJsonFields fs kvs).map .struct
   | .tuple ts, .arr js => (fromJsonTuple ts js).map .tup
   | .ndarray t _, .obj kvs =>
@@ -219,7 +244,7 @@ def fromJson : HType → Json → Option Value
         match natsOfJson sh, mapOpt (rawOfJson t) d with
         | some shape, some data =>
           let n := shape.foldl (· * ·) 1
-          if data.length < n then none else some (.nd shape (data.take n))    -- "buffer is too small"; a longer one is cut
+          if data.length < n then none else some (.nd shape (data.take n) false)    -- "buffer is too small"; a longer one is cut
         | _, _ => none
       | _, _ => none
     else none                    -- TypeError("Hail cannot currently return ndarrays of non-numeric or boolean type.")
@@ -229,8 +254,8 @@ def fromJsonFields : List (Str × HType) → List (Str × Json) → Option (List
   | [], _ => some []
   | (n, t) :: fs, kvs =>
     match (match lookup n kvs with
-      | none | some .null => some Value.na
-      | some j => fromJson t j), fromJsonFields fs kvs with
+      | none => some Value.na                        -- `x.get(f)` of an absent key is `None`
+      | some j => nullOr j (fromJson t)), fromJsonFields fs kvs with
     | some x, some xs => some (x :: xs)
     | _, _ => none
 /-- `tuple(self.types[i]._convert_from_json_na(x[i]) for i in range(len(self.types)))` -/
@@ -238,16 +263,41 @@ def fromJsonTuple : List HType → List Json → Option (List Value)
   | [], _ => some []
   | _ :: _, [] => none                                             -- IndexError
   | t :: ts, j :: js =>
-    match (match j with | .null => some Value.na | _ => fromJson t j), fromJsonTuple ts js with
+    match nullOr j (fromJson t), fromJsonTuple ts js with
     | some x, some xs => some (x :: xs)
     | _, _ => none
 end
 
 /-- `t._convert_from_json_na(x)` -/
-def fromJsonNa (t : HType) (j : Json) : Option Value :=
-  match j with
-  | .null => some .na
-  | _ => fromJson t j
+def fromJsonNa (t : HType) (j : Json) : Option Value := nullOr j (fromJson t)
+
+/-! ## what the conversion supports -/
+
+/-- the classes whose `_convert_to_json` is the identity, so that a `None` dict key / value survives -/
+def primNone : HType → Bool
+  | .int32 | .int64 | .bool | .str => true
+  | _ => false
+
+mutual
+/-- no dict holds a missing key or value of a type outside `primNone`, and every n-d array has a numeric element type -/
+def JsonOK : HType → Value → Prop
+  | _, .na => True
+  | .interval t, .interval s e _ _ => JsonOK t s ∧ JsonOK t e
+  | .array t, .arr xs => ∀ x ∈ xs, JsonOK t x
+  | .set t, .set xs => ∀ x ∈ xs, JsonOK t x
+  | .dict k v, .dict es =>
+    ∀ p ∈ es, JsonOK k p.1 ∧ JsonOK v p.2 ∧ (p.1 = .na → primNone k = true) ∧ (p.2 = .na → primNone v = true)
+  | .struct fs, .struct xs => JsonOKFields fs xs
+  | .tuple ts, .tup xs => JsonOKTuple ts xs
+  | .ndarray t _, .nd _ _ _ => isNumeric t = true
+  | _, _ => True
+def JsonOKFields : List (Str × HType) → List Value → Prop
+  | (_, t) :: fs, x :: xs => JsonOK t x ∧ JsonOKFields fs xs
+  | _, _ => True
+def JsonOKTuple : List HType → List Value → Prop
+  | t :: ts, x :: xs => JsonOK t x ∧ JsonOKTuple ts xs
+  | _, _ => True
+end
 
 /-- `t._from_json(t._to_json(v))` -/
 def roundTrip (t : HType) (v : Value) : Option Value := (toJsonNa t v).bind (fromJsonNa t)
